@@ -5,6 +5,7 @@ mod s_sharks;
 mod s_star;
 mod oracle;
 mod o_sharks;
+mod o_wire;
 
 fn main() {
   let args: Vec<String> = std::env::args().collect();
